@@ -20,8 +20,8 @@ from concurrent.futures import ThreadPoolExecutor
 sys.path.insert(0, os.path.dirname(os.path.dirname(os.path.abspath(__file__))))
 import common as C  # noqa: E402
 
-GEN = ['Effects']
-PROPS = ['FinVerif.Props.C18a', 'FinVerif.Props.C18b', 'FinVerif.Props.C18c', 'FinVerif.Props.C18d']
+GEN = ['Effects', 'VecShape']
+PROPS = ['FinVerif.Props.C18a', 'FinVerif.Props.C18b', 'FinVerif.Props.C18c', 'FinVerif.Props.C18d', 'FinVerif.Props.C18e']
 DRIVERS = ['FinVerif.Driver.C18']
 HIST = os.path.join(os.path.dirname(os.path.dirname(os.path.abspath(__file__))), 'c18_hist.py')
 NPROC = int(os.environ.get('VERIF_JOBS', '0')) or min(12, os.cpu_count() or 4)
@@ -1092,6 +1092,143 @@ def date_list_checks(ctx, rng):
     ctx.count('vector vs scalar: curve zero_rate / cc_rate / fwd / fwd_rate / swap_rate / survival_prob on date lists', n)
 
 
+def curve_vector_checks(ctx, rng):
+    """growth round 7: every curve class x interpolation type, every list-taking entry point: the call on a list of
+    dates (1 element, several, WITH the value date and the day after among them) against the scalar calls, BIT FOR BIT
+    (the same compiled kernel / NumPy ufunc evaluates both, so no tolerance is needed and none is used).  This is the
+    executable reading of Props/C18e and the validation of what Gen/VecShape trusts (element-wise NumPy / SciPy / Numba)."""
+    import numpy as np
+    from financepy.utils.date import Date
+    from financepy.utils.frequency import FrequencyTypes
+    from financepy.utils.day_count import DayCountTypes
+    from financepy.market.curves.discount_curve import DiscountCurve
+    from financepy.market.curves.discount_curve_flat import DiscountCurveFlat
+    from financepy.market.curves.discount_curve_zeros import DiscountCurveZeros
+    from financepy.market.curves.discount_curve_pwf import DiscountCurvePWF
+    from financepy.market.curves.discount_curve_pwl import DiscountCurvePWL
+    from financepy.market.curves.discount_curve_ns import DiscountCurveNS
+    from financepy.market.curves.discount_curve_nss import DiscountCurveNSS
+    from financepy.market.curves.discount_curve_poly import DiscountCurvePoly
+    from financepy.market.curves.interpolator import InterpTypes, Interpolator, interpolate
+    from financepy.utils.helpers import times_from_dates
+
+    def fm(x):
+        return f'{x.d}-{x.m}-{x.y}'
+
+    def bits(f):
+        try:
+            return [float(x).hex() for x in np.asarray(f(), dtype=float).ravel()]
+        except Exception as e:  # noqa: BLE001
+            return 'E:' + type(e).__name__
+    n = nfind = 0
+    spline_log = (InterpTypes.PCHIP_LOG_DISCOUNT, InterpTypes.NATCUBIC_LOG_DISCOUNT)
+    freqs = [FrequencyTypes.CONTINUOUS, FrequencyTypes.SIMPLE, FrequencyTypes.ANNUAL, FrequencyTypes.SEMI_ANNUAL, FrequencyTypes.QUARTERLY]
+    dcs = [DayCountTypes.ACT_ACT_ISDA, DayCountTypes.ACT_365F, DayCountTypes.ACT_360, DayCountTypes.THIRTY_E_360]
+    for it in range(6 if ctx.quick() else 60):
+        vd = Date(rng.choice([28, 29, 30, 31, 15, 1]), rng.choice([1, 3, 5, 7, 8, 10, 12]), rng.randint(2015, 2030))
+        pill = vd.add_months(sorted(rng.sample(range(3, 200), 5)))
+        dfs = np.cumprod([rng.uniform(0.93, 0.999) for _ in range(5)])
+        zr = [rng.uniform(0.005, 0.06) for _ in range(5)]
+        fq, dc = rng.choice(freqs), rng.choice(dcs)
+        curves = []
+        for ity in InterpTypes:
+            curves.append((f'DiscountCurve[{ity.name}]', DiscountCurve(vd, pill, np.array(dfs), ity), ity))
+            curves.append((f'DiscountCurveZeros[{ity.name},{fq.name},{dc.name}]', DiscountCurveZeros(vd, pill, np.array(zr), fq, dc, ity), ity))
+        curves += [(f'DiscountCurveFlat[{fq.name},{dc.name}]', DiscountCurveFlat(vd, rng.uniform(-0.01, 0.08), fq, dc), None),
+                   (f'DiscountCurvePWF[{fq.name},{dc.name}]', DiscountCurvePWF(vd, pill, zr, fq, dc), None),
+                   (f'DiscountCurvePWL[{fq.name},{dc.name}]', DiscountCurvePWL(vd, pill, zr, fq, dc), None),
+                   (f'DiscountCurveNS[{fq.name},{dc.name}]', DiscountCurveNS(vd, 0.03, -0.01, 0.012, rng.uniform(0.5, 4), fq, dc), None),
+                   (f'DiscountCurveNSS[{fq.name},{dc.name}]', DiscountCurveNSS(vd, 0.03, -0.01, 0.012, 0.004, rng.uniform(0.5, 3), rng.uniform(3, 8), fq, dc), None),
+                   (f'DiscountCurvePoly[{fq.name},{dc.name}]', DiscountCurvePoly(vd, [0.02, 0.002, -0.00004], fq, dc), None)]
+        ds = [vd, vd.add_days(1)] + [vd.add_days(rng.randint(2, 6500)) for _ in range(rng.randint(1, 4))] + [rng.choice(pill)]
+        rng.shuffle(ds)
+        lists = [ds, [ds[0]], ds[:2]]
+        for name, c, ity in curves:
+            meths = [('df', lambda x, c=c: c.df(x)), ('zero_rate', lambda x, c=c: c.zero_rate(x, fq, dc)), ('cc_rate', lambda x, c=c: c.cc_rate(x)),
+                     ('fwd', lambda x, c=c: c.fwd(x)), ('fwd_rate', lambda x, c=c: c.fwd_rate(x, '3M')),
+                     ('swap_rate', lambda x, c=c: c.swap_rate(vd, x)), ('survival_prob', lambda x, c=c: c.survival_prob(x))]
+            for mname, f in meths:
+                for lst in lists:
+                    if mname == 'swap_rate':
+                        lst = [x for x in lst if x > vd] or [vd.add_days(400)]
+                    if mname == 'survival_prob' and len(lst) > 1 and not isinstance(c, DiscountCurve):
+                        continue
+                    vec = bits(lambda: f(list(lst)))
+                    sca = [bits(lambda: f(x)) for x in lst]
+                    n += len(lst)
+                    if isinstance(vec, str):
+                        if vec in sca:
+                            continue            # the first failing element fails alone with the same error
+                        sflat = None
+                        if vec == 'E:ValueError' and mname == 'swap_rate' and type(c).__name__ in ('DiscountCurvePWF', 'DiscountCurvePWL', 'DiscountCurvePoly') \
+                                and any(x == [(0.0).hex()] for x in sca) and any(isinstance(x, list) and x != [(0.0).hex()] for x in sca):
+                            ctx.violation(f'{name}.swap_rate(list) raises ValueError where every scalar call returns',
+                                          {'curve': name, 'value_dt': fm(vd), 'dates': [fm(x) for x in lst], 'scalar_calls': sca},
+                                          finding='C18/swap-rate-list-mixed-shapes', clause='vector')
+                            continue
+                    else:
+                        sflat = [s[0] if isinstance(s, list) and len(s) == 1 else s for s in sca]
+                    if sflat is not None and vec == sflat:
+                        continue
+                    # narrow classifier of the known finding: spline of log(df), the ONLY differing elements are the value date
+                    # (t = 0), where the scalar call returns exactly 1.0
+                    known = None
+                    if sflat is not None and ity in spline_log and len(vec) == len(sflat) and mname in ('df', 'survival_prob', 'zero_rate', 'cc_rate', 'fwd', 'fwd_rate'):
+                        diff = [i for i in range(len(lst)) if vec[i] != sflat[i]]
+                        at0 = [i for i in diff if lst[i] == vd or (mname == 'fwd_rate' and False)]
+                        if diff and diff == at0 and (mname not in ('df', 'survival_prob') or all(sflat[i] == (1.0).hex() for i in diff)):
+                            known = 'C18/interpolator-zero-time-shortcut'
+                            nfind += 1
+                    ctx.violation(f'{name}.{mname}(list of dates): an element differs bit-for-bit from the same quantity requested alone',
+                                  {'curve': name, 'value_dt': fm(vd), 'method': mname, 'dates': [fm(x) for x in lst],
+                                   'list_call': vec, 'scalar_calls': sca}, finding=known, clause='vector')
+        # the time-level entry points: interpolate / Interpolator.interpolate / df_t on ndarrays incl. 0.0, a pillar, beyond the last pillar
+        c0 = curves[0][1]
+        tt = np.array([0.0, 1.0 / 365.0] + [rng.uniform(0.0, 25.0) for _ in range(4)] + [float(c0._times[2]), float(c0._times[-1]), 30.0])
+        for name, c, ity in curves:
+            if ity is None:
+                continue
+            for fname, f in (('df_t', lambda x, c=c: c.df_t(x)), ('_interpolator.interpolate', lambda x, c=c: c._interpolator.interpolate(x)),
+                             ('interpolate', lambda x, c=c: interpolate(x, c._times, c._dfs, c._interp_type.value))):
+                if fname == 'interpolate' and ity.value not in (1, 2, 4):
+                    continue
+                for arr in (tt, tt[:1], tt[3:4]):
+                    vec = bits(lambda: f(arr))
+                    sca = [bits(lambda: f(float(x))) for x in arr]
+                    n += len(arr)
+                    sflat = [s[0] if isinstance(s, list) and len(s) == 1 else s for s in sca]
+                    if vec == sflat or (isinstance(vec, str) and vec in sca):
+                        continue
+                    known = None
+                    if not isinstance(vec, str) and (ity in spline_log or fname == '_interpolator.interpolate'):
+                        diff = [i for i in range(len(arr)) if vec[i] != sflat[i]]
+                        if diff and all(abs(arr[i]) < 1e-10 and sflat[i] == (1.0).hex() for i in diff):
+                            known = 'C18/interpolator-zero-time-shortcut'
+                            nfind += 1
+                    ctx.violation(f'{name}.{fname}(ndarray of times): an element differs bit-for-bit from the scalar call',
+                                  {'curve': name, 'times': [float(x) for x in arr], 'array_call': vec, 'scalar_calls': sca},
+                                  finding=known, clause='vector')
+        for dcx in [None] + dcs:
+            vec = bits(lambda: times_from_dates(list(ds), vd, dcx))
+            sca = [bits(lambda: times_from_dates(x, vd, dcx))[0] for x in ds]
+            n += len(ds)
+            if vec != sca:
+                ctx.violation('times_from_dates(list) differs from the scalar conversions', {'value_dt': fm(vd), 'day_count': str(dcx),
+                              'dates': [fm(x) for x in ds], 'list_call': vec, 'scalar_calls': sca}, clause='vector')
+    # the empty list: the generated model says IndexError (Props/C18e.times_from_dates_empty)
+    try:
+        times_from_dates([], Date(1, 1, 2020), None)
+        ctx.broke('correspondence: times_from_dates([]) returns, Gen/VecShape (times_from_dates_empty) says it raises')
+    except IndexError:
+        pass
+    except Exception as e:  # noqa: BLE001
+        ctx.broke(f'correspondence: times_from_dates([]) raises {type(e).__name__}, Gen/VecShape says IndexError')
+    ctx.count('vector vs scalar BIT-FOR-BIT: curve class x interpolation type x entry point (lists incl. value date; ndarrays of times incl. 0)',
+              n, n, sample={'known_finding_hits': nfind})
+    if nfind == 0:
+        print('NOTE C18: the value-date / spline-of-log-df discrepancy (C18/interpolator-zero-time-shortcut) did not reproduce')
+
+
 # --------------------------------------------------------------------------------------------- growth round: model ties
 def module_state_snapshot():
     """digest of every module-level value and every class-level container of the loaded financepy modules"""
@@ -1464,6 +1601,13 @@ def run(ctx):
     def lap(what):
         T.append(time.time())
         ctx.cov.setdefault('timing_s', {})[what] = round(T[-1] - T[-2], 1)
+    # findings/C18.json is the source known_findings.json is generated from (tools/mkfindings.py, run by the coordinator):
+    # an OPEN entry there is known even before the shared file has been regenerated
+    try:
+        with open(os.path.join(C.VERIF, 'findings', 'C18.json')) as f:
+            ctx.known_ids |= {k['id'] for k in json.load(f) if k.get('status', 'open') == 'open'}
+    except Exception:  # noqa: BLE001
+        pass
     drivers_ok = C.lean_stage(ctx, GEN, PROPS, DRIVERS)
     lap('lean')
     C.import_financepy()
@@ -1505,6 +1649,7 @@ def run(ctx):
         if len(ctx.violations) >= 20:
             break
     vector_checks(ctx, ctx.rng('vector'))
+    curve_vector_checks(ctx, ctx.rng('curve-vector'))
     lap('vector')
     date_list_model_checks(ctx, ctx.rng('datelist-model'), drivers_ok)
     theta_bump_checks(ctx, ctx.rng('theta'), drivers_ok)
@@ -1517,7 +1662,7 @@ def run(ctx):
         'the two-phase tree-model API (build_tree then a query) is exercised as products use it (build and query in one call); a bare query after somebody else\'s build_tree is by design the last tree',
         'printing methods (__repr__, print_*) report the last valuation by design and are not treated as results, except str(Date) whose dependence on the global format is checked with the format as an explicit argument',
     ]
-    return C.finish(ctx, 'proof', 'lake build FinVerif.Props.C18a FinVerif.Props.C18b FinVerif.Props.C18c FinVerif.Props.C18d && lake env lean .cache/audit/Audit_C18.lean',
+    return C.finish(ctx, 'proof', 'lake build FinVerif.Props.C18a FinVerif.Props.C18b FinVerif.Props.C18c FinVerif.Props.C18d FinVerif.Props.C18e && lake env lean .cache/audit/Audit_C18.lean',
                     C.TRUSTED_BASE_COMMON + ['tools/effects/extract.py: the read-before-write / write sets it emits over-approximate what the methods do (checked against observed attribute changes on every explored call)'],
                     RULE)
 
